@@ -442,6 +442,9 @@ func runC02(a vh.Args, o *vh.Oracle, r *vh.Result) error {
 	if err := c02Flags(a, o, r, rng, nfl); err != nil {
 		return err
 	}
+	if err := c02Resonance(a, o, r, rng); err != nil {
+		return err
+	}
 	nseq, npar := 150, 320
 	if a.Tier == "thorough" {
 		nseq, npar = 1500, 5000
